@@ -70,7 +70,13 @@ structure MlCfg (C D : Nat) (α : Type) where
   countThr : α
   varFloor : Fin C → Fin D → α
 
+/-- a component whose count is below the count threshold keeps its mean (D25: the pinned commit divided
+its partial sum by the threshold, which pulls the mean towards the origin) -/
 def mlMeans (cfg : MlCfg C D α) (p : Params C D α) (st : Stats C D α) : Fin C → Fin D → α :=
+  let tn : Fin C → α := fun c => max (st.n c) cfg.countThr
+  if cfg.updMeans then fun c d => if st.n c < cfg.countThr then p.means c d else st.sumPx c d / tn c else p.means
+/-- the means update of the pinned commit, kept for the refutation (`C15_ml_starved_old_refuted`) -/
+def mlMeansOld (cfg : MlCfg C D α) (p : Params C D α) (st : Stats C D α) : Fin C → Fin D → α :=
   let tn : Fin C → α := fun c => max (st.n c) cfg.countThr
   if cfg.updMeans then fun c d => st.sumPx c d / tn c else p.means
 
@@ -86,12 +92,14 @@ def mlRawVarOld (cfg : MlCfg C D α) (p : Params C D α) (st : Stats C D α) (c 
   let tn : Fin C → α := fun c => max (st.n c) cfg.countThr
   st.sumPxx c d / tn c - mlMeans cfg p st c d * mlMeans cfg p st c d
 
-/-- gmm.py ml_gmm_m_step (with the frozen-means repair), `t` = number of samples -/
+/-- gmm.py ml_gmm_m_step (with the frozen-means repair and the no-data repair: a component below the
+count threshold keeps its mean and variance), `t` = number of samples -/
 def mlMStep (cfg : MlCfg C D α) (p : Params C D α) (st : Stats C D α) (t : α) : Params C D α :=
   let tn : Fin C → α := fun c => max (st.n c) cfg.countThr
   { weights := if cfg.updWeights then fun c => tn c / t else p.weights
     means := mlMeans cfg p st
-    variances := if cfg.updVars then fun c d => max (cfg.varFloor c d) (mlRawVar cfg p st c d)
+    variances := if cfg.updVars then fun c d =>
+                   max (cfg.varFloor c d) (if st.n c < cfg.countThr then p.variances c d else mlRawVar cfg p st c d)
                  else p.variances }
 end
 end BobEM
